@@ -21,7 +21,7 @@ import (
 func init() {
 	core.Register(&core.Simple{
 		Id: "C18", Lvl: "exploration", Quick: 200, Thorough: 5000, PerBatch: 50, Width: 16, Timeout: 1500,
-		RuleText: "each case is a history of 15-35 news requests sent through the real connection loop (create bundle/category at nested paths, post, reply, delete article, delete item, read-only requests and article deletion on non-existent paths, reload of the live store and a second store opened on the file); titles 0..255 bytes, bodies up to ~60 KiB, names with YAML-significant text and high bytes; after every step the category listing of every model path, the article list of every category and get-article of every article are decoded by the reference decoder and compared with a reference news model implementing the stated linking rules. distinct = multiset of operation kinds; non-trivial = history contains a post and a delete",
+		RuleText: "each case is a history of 15-35 news requests sent through the real connection loop (create bundle/category at nested paths, post, reply (mostly into categories, sometimes into bundles, which the server also accepts), delete article, delete item, read-only requests and article deletion on non-existent paths, reload of the live store and a second store opened on the file); titles 0..255 bytes, bodies up to ~60 KiB, names with YAML-significant text and high bytes; after every step the category listing of every model path, the article list of every category and get-article of every article are decoded by the reference decoder and compared with a reference news model implementing the stated linking rules. distinct = multiset of operation kinds; non-trivial = history contains a post and a delete",
 		Case: runCase,
 	})
 }
@@ -197,6 +197,10 @@ func (w *world) doStep() bool {
 		pn.kids[name] = &node{typ: typ, name: name, kids: map[string]*node{}, arts: map[uint32]*art{}}
 	case "post", "reply":
 		p := core.Pick(r, cats)
+		// the server also accepts articles in a bundle: now and then post there too (non-root bundles)
+		if nb := bundles[1:]; len(nb) > 0 && r.Chance(1, 5) {
+			p = core.Pick(r, nb)
+		}
 		n := w.find(p)
 		parent := uint32(0)
 		if kind == "reply" {
@@ -257,6 +261,11 @@ func (w *world) doStep() bool {
 		w.log[len(w.log)-1] += fmt.Sprintf(" [id %d]", id)
 	case "delete-article":
 		p := core.Pick(r, cats)
+		for _, bp := range bundles[1:] {
+			if len(w.find(bp).arts) > 0 && r.Chance(1, 3) {
+				p = bp
+			}
+		}
 		n := w.find(p)
 		var ids []uint32
 		for id := range n.arts {
@@ -372,8 +381,11 @@ func (w *world) check() bool {
 		}
 		c.Count("cat_listings", 1)
 	}
-	// article lists and articles
-	for _, p := range w.paths(3) {
+	// article lists and articles (bundles can hold articles too)
+	for _, p := range w.paths(0) {
+		if len(p) == 0 {
+			continue
+		}
 		n := w.find(p)
 		listed, order, ok := w.listIDs(p)
 		if !ok {
